@@ -280,7 +280,9 @@ def main():
         'engines': [{'name': 'sa', 'path': 'sa/', 'serves_properties': sorted(CLAIMED),
                      'kind_free_text': 'repository-specific static analyser: ast module index, statement CFG with short-circuit tests, '
                                        'local def-use closure, import/call graph, literal tables, grammar ladder, abstract evaluation of '
-                                       'pattern-checking functions over connective patterns with finite truth / small-integer tables'}],
+                                       'pattern-checking functions over connective patterns with finite truth / small-integer tables; '
+                                       'source-to-source normal forms applied before a rule reads a function (helper calls expanded in place, '
+                                       'dispatch tables as branches, literal loops unrolled, named conditions read at their tests)'}],
         'checks': checks,
         'not_applicable': [{'property_id': k, 'reason': v} for k, v in sorted(na.items())],
         'notes': 'All checks: exit 0 = rules hold (known findings printed as KNOWN-FINDING), 1 = VIOLATION, 2 = ANALYSIS-ERROR '
